@@ -57,6 +57,7 @@ func checkC20(w *World, r *Run) {
 	checkCacheMutators(w, r, c)
 	checkCacheBypass(w, r, c)
 	checkCacheEarlyFill(w, r, c)
+	checkCacheFileNamesInjective(w, r)
 	checkCacheFillCompletion(w, r)
 	r.NotCovered("races between a concurrent cache fill and an invalidation (schedules)")
 	r.NotCovered("that the cached bytes equal the stored bytes (runtime values)")
